@@ -26,6 +26,7 @@ from xdis import wordcode
 from xdis.cross_dis import (
     findlabels,
     findlinestarts,
+    findlinestarts_pre38,
     findlinestarts_unsigned,
     get_jump_target_maps,
 )
@@ -146,6 +147,9 @@ def init_opdata(loc, from_mod, version_tuple=None, is_pypy=False):
     if version_tuple is not None and version_tuple < (3, 6):
         # co_lnotab line deltas became signed in 3.6
         loc["findlinestarts"] = findlinestarts_unsigned
+    elif version_tuple is not None and version_tuple < (3, 8):
+        # dis.findlinestarts stops at the end of the bytecode from 3.8 on
+        loc["findlinestarts"] = findlinestarts_pre38
     else:
         loc["findlinestarts"] = findlinestarts
     if version_tuple is None or version_tuple <= (3, 5):
